@@ -659,6 +659,7 @@ pub fn gen_reader_input(kind: RKind, g: &mut Rng, size: u32, cfg: &mut Rng) -> (
                 let mut out = Vec::new();
                 let _ = h6.write(&mut out);
                 out.extend_from_slice(&chain);
+                align_announced_length(&mut out, g);
                 return finish_reader_input(kind, ip_number, out, g, cfg);
             }
             let mut h = gen_ip_headers(g, size.min(2));
@@ -696,6 +697,7 @@ pub fn gen_reader_input(kind: RKind, g: &mut Rng, size: u32, cfg: &mut Rng) -> (
                     let _ = e.write(&mut out, h6.next_header);
                 }
             }
+            align_announced_length(&mut out, g);
             out
         }
         RKind::Tcp => encode(WKind::Tcp, &gen_value(WKind::Tcp, g, size)),
@@ -704,6 +706,29 @@ pub fn gen_reader_input(kind: RKind, g: &mut Rng, size: u32, cfg: &mut Rng) -> (
         RKind::Icmp6 => encode(WKind::Icmp6, &gen_value(WKind::Icmp6, g, size)),
     };
     finish_reader_input(kind, ip_number, bytes, g, cfg)
+}
+
+/// Offsets at which the headers of an extension chain end (raw walk).
+fn chain_boundaries(first: u8, bytes: &[u8]) -> Vec<usize> {
+    let mut out = Vec::new();
+    let mut next = first;
+    let mut at = 0usize;
+    loop {
+        let rest = &bytes[at.min(bytes.len())..];
+        let len = match next {
+            44 => 8,
+            51 if rest.len() >= 2 => (usize::from(rest[1]) + 2) * 4,
+            0 | 43 | 60 | 135 | 139 | 140 if rest.len() >= 2 => (usize::from(rest[1]) + 1) * 8,
+            _ => break,
+        };
+        if rest.len() < len || out.len() >= 12 {
+            break;
+        }
+        next = rest[0];
+        at += len;
+        out.push(at);
+    }
+    out
 }
 
 /// Extension header chain encoded by hand: 1..=7 headers in arbitrary order.
@@ -760,6 +785,34 @@ fn gen_raw_chain(g: &mut Rng, size: u32, with_skippable_only_kinds: bool) -> (u8
     (kinds[0], out)
 }
 
+/// With probability 1/4 rewrites the announced IPv4 total length / IPv6
+/// payload length so that it ends on - or 1..2 bytes next to - a boundary
+/// between two headers of the chain.
+fn align_announced_length(ip: &mut [u8], g: &mut Rng) {
+    if !g.chance(1, 4) || ip.len() < 40 {
+        return;
+    }
+    match ip[0] >> 4 {
+        6 => {
+            let b = chain_boundaries(ip[6], &ip[40..]);
+            if !b.is_empty() {
+                let v = (*g.pick(&b) as i64 + g.range(0, 4) as i64 - 2).clamp(0, 65_535) as u16;
+                ip[4..6].copy_from_slice(&v.to_be_bytes());
+            }
+        }
+        4 => {
+            let hl = usize::from(ip[0] & 0xf) * 4;
+            if hl >= 20 && ip.len() >= hl {
+                let mut b = vec![hl];
+                b.extend(chain_boundaries(ip[9], &ip[hl..]).into_iter().map(|x| x + hl));
+                let v = (*g.pick(&b) as i64 + g.range(0, 4) as i64 - 2).clamp(0, 65_535) as u16;
+                ip[2..4].copy_from_slice(&v.to_be_bytes());
+            }
+        }
+        _ => {}
+    }
+}
+
 fn finish_reader_input(
     kind: RKind,
     ip_number: u8,
@@ -775,7 +828,15 @@ fn finish_reader_input(
     };
     let f = g.bytes(filler);
     bytes.extend_from_slice(&f);
-    let limit = if kind.is_limited() {
+    // limits on / next to the boundaries between the headers of a chain
+    let boundaries: Vec<usize> = match kind {
+        RKind::V6ExtsLimited => chain_boundaries(ip_number, &bytes[..header_len]),
+        _ => Vec::new(),
+    };
+    let limit = if kind.is_limited() && !boundaries.is_empty() && g.chance(1, 3) {
+        let b = *g.pick(&boundaries) as i64 + g.range(0, 4) as i64 - 2;
+        b.max(0) as usize
+    } else if kind.is_limited() {
         match g.below(8) {
             0 => header_len.saturating_sub(1),
             1 => g.usize_range(0, header_len),
